@@ -404,10 +404,13 @@ def cover_1d(terms, n, nmin=1):
             for m in qa[1]:
                 L = L * m // gcd(L, m)
             D = max(D, qa[2])
-        off = sym.const_value(sym.sub(g, lp["var"]))
-        if off is None:
-            return "unknown", "index %s is not the loop variable plus a constant" % sym.show(g)
-        D = max(D, abs(off))
+        lin = sym.linear_in(g, lp["var"])
+        qr = quasi_affine(lin[1], n) if lin is not None and lin[0] in (I(1), I(-1)) else None
+        if qr is None or qr[0] not in (0, 1, -1):
+            return "unknown", "index %s is not (+/-) the loop variable plus a constant (possibly n)" % sym.show(g)
+        for m in qr[1]:
+            L = L * m // gcd(L, m)
+        D = max(D, qr[2])
     for nv in range(nmin, nmin + D + 2 * L + 2):
         env = {n: nv}
         seen = {}
@@ -415,10 +418,14 @@ def cover_1d(terms, n, nmin=1):
             lo, hi, s = _eval_int(lp["lo"], env), _eval_int(lp["hi"], env), sym.const_value(lp["step"])
             if lo is None or hi is None:
                 return "unknown", "loop range [%s, %s) cannot be evaluated" % (sym.show(lp["lo"]), sym.show(lp["hi"]))
-            off = sym.const_value(sym.sub(g, lp["var"]))
             i = lo
             while (i < hi) if lp["cmp"] == "<" else (i <= hi):
-                seen.setdefault(i + off, []).append(sg)
+                e2 = dict(env)
+                e2[lp["var"]] = i
+                gi = _eval_int(g, e2)
+                if gi is None:
+                    return "unknown", "index %s cannot be evaluated" % sym.show(g)
+                seen.setdefault(gi, []).append(sg)
                 i += s
         want = set(range(nv))
         missing = sorted(want - set(seen))
